@@ -392,6 +392,24 @@ def sizes38():
     return union("sizes38", parts)
 
 
+def eq_ring(n=8, phase=-180.0 + 10.0):
+    """band of n quads around the equator (lat -12..14) with a triangle on top of every quad: mixed sizes, faces at
+    every longitude, so that whatever the central longitude of a projection is some faces straddle its seam and
+    exactly one quad and one triangle straddle +-180."""
+    step = 360.0 / n
+    lo = [lonlat_to_xyz(phase + step * i, -12.0) for i in range(n)]
+    hi = [lonlat_to_xyz(phase + step * i, 14.0) for i in range(n)]
+    ap = [lonlat_to_xyz(phase + step * (i + 0.5), 37.0) for i in range(n)]
+    pts = lo + hi + ap
+    faces = []
+    for i in range(n):
+        j = (i + 1) % n
+        faces.append((i, j, n + j, n + i))
+        faces.append((n + i, n + j, 2 * n + i))
+    faces = [orient_ccw(pts, f) for f in faces]
+    return Mesh("eqring", pts, faces, False, tags=("antimeridian",))
+
+
 _CACHE = {}
 _EXTRA = {}
 
@@ -399,7 +417,7 @@ _EXTRA = {}
 def extra():
     """meshes used by later checks only (not part of the C02/C03 catalogue)."""
     if not _EXTRA:
-        for m in [sizes38(), cubesphere(3), single(4), single(6), single(8), am3()]:
+        for m in [sizes38(), cubesphere(3), single(4), single(6), single(8), am3(), eq_ring()]:
             _EXTRA[m.name] = m
     return _EXTRA
 
